@@ -24,7 +24,7 @@ COMPONENTS = {
 ASSUMPTIONS = ['process-kill crash model (completed backend mutations persist)', 'SimStore objects are atomic; torn local files are covered by the Local FS-seam profile of C12/C13',
                'enumeration is complete per sampled victim run, sampled over runs']
 PROBES = ['victim_snapshot', 'victim_delete', 'victim_clean', 'crash', 'crash_inflight_commit', 'fail_before', 'fail_after', 'orphans_collected', 'victim_snapshot_visible_after_lost_ack']
-TIERS = {'quick': {'budget_s': 55, 'batch': 2}, 'thorough': {'budget_s': 900, 'batch': 4}}
+TIERS = {'quick': {'budget_s': 55, 'batch': 1}, 'thorough': {'budget_s': 900, 'batch': 4}}
 MAX_POINTS = 48
 
 
